@@ -168,6 +168,9 @@ def check_setter(prog, res, f, cont, el):
             model = {'arg1': idx, 'this.%s.size' % cont: size}
             events, end, undec = a7.walk(f, model)
             rows += 1
+            if str(end).startswith('undecided'):
+                unread.append('idx=%s size=%d: the walk stops at a statement the rule does not evaluate (%s)' % ('SIZE_MAX' if idx == SIZE_MAX else idx, size, end))
+                continue
             if end != 'NEXIT':
                 bad.append('idx=%s size=%d: ends in %s' % ('SIZE_MAX' if idx == SIZE_MAX else idx, size, end))
                 continue
@@ -207,8 +210,39 @@ def check_setter(prog, res, f, cont, el):
     else:
         res.ok('three-way-effects', inst, f.loc(), 'only %s is modified' % cont, function=f.sig, expr='effects')
     # no loops: every other element is untouched
-    if any(True for _ in f.all_nodes({'ForStmt', 'WhileStmt', 'DoStmt', 'CXXForRangeStmt'})):
-        res.viol('three-way-effects', inst + ' loop', f.loc(), 'the setter iterates over the container: other elements may be touched', function=f.sig, expr='loop')
+    LOOPS = {'ForStmt', 'WhileStmt', 'DoStmt', 'CXXForRangeStmt'}
+    loops = [n for n in f.all_nodes(LOOPS)]
+    if loops:
+        # positive evidence: an element store whose position comes out of the loop (the loop variable, or a local assigned in a loop)
+        R = Renderer(f)
+        C = 'this.' + cont
+        in_loop = set()
+        for lp in loops:
+            in_loop.update(f.descendants(lp['id']))
+        loop_locals = set()
+        for nid in in_loop:
+            n = f.nodes[nid]
+            if n['k'] == 'VarDecl' and n.get('name'):
+                loop_locals.add(n['name'])
+            if n['k'] == 'BinaryOperator' and n['op'] == '=' or n['k'] in ('UnaryOperator', 'CompoundAssignOperator'):
+                t = f.nodes[f.strip(n['ch'][0], 'all')] if n['ch'] else None
+                if t is not None and t['k'] == 'DeclRefExpr' and t['decl'].get('dk') == 'local':
+                    loop_locals.add(t['decl'].get('name'))
+        hit = None
+        for n in f.all_nodes({'CXXOperatorCallExpr', 'BinaryOperator'}):
+            if not ((n['k'] == 'CXXOperatorCallExpr' and n.get('op') == '=') or (n['k'] == 'BinaryOperator' and n['op'] == '=')):
+                continue
+            lhs = n['args'][0] if n['k'] == 'CXXOperatorCallExpr' else n['ch'][0]
+            l = R.render(lhs)
+            if l.startswith(C + '['):
+                for m in re.findall(r'local:(\w+)', l[len(C):]):
+                    if m in loop_locals:
+                        hit = (n['id'], l, m)
+        if hit:
+            res.viol('three-way-effects', inst + ' loop', f.loc(hit[0]), 'the setter stores into %s, a position found by a loop over the container (%s): an element other than the documented target is replaced' % (hit[1], hit[2]),
+                     function=f.sig, expr='loop', sure=True)
+        else:
+            res.undecided('three-way-effects', inst + ' loop', f.loc(loops[0]['id']), 'the setter contains a loop; which elements it touches is not read by the rule [shape not read by the rule]', function=f.sig, expr='loop')
 
 
 def column_adder(prog, res, f, kind, rule='column'):
@@ -350,6 +384,10 @@ def run(prog, tier):
     for f, cont, el in setters:
         check_setter(prog, res, f, cont, el)
     column_rules(prog, res)
+    # the frame that is stored is a copy of the one given: the copies are made through the value setters of Point / Channel, which
+    # must write their own component only (a setter that also rewrites a sibling makes the copy depend on the order of the calls)
+    import setters as _ST
+    _ST.exclusive_rule(prog, res, {'ezc3d::DataNS::Points3dNS::Point', 'ezc3d::DataNS::AnalogsNS::Channel'}, 'value-setters')
     import codec_rules as _CR
     _CR.passthrough_index_rule(prog, res)
     # c3d::analog(name) sizes the new column from the header's sub-frame count: it must be the stored one (updater table)
